@@ -61,8 +61,8 @@ Qed.
 
 Definition senv_ok : Prop :=
   env_ok e /\
-  Forall (fun x => cfg_ok (snd x)) (d_chans (v_dev v)) /\
-  Forall (fun x => cfg_ok (snd x)) (d_dmms (v_dev v)).
+  Forall (fun x => cfg_ok (snd x) /\ cfg_amp_ok (snd x)) (d_chans (v_dev v)) /\
+  Forall (fun x => cfg_ok (snd x) /\ cfg_amp_ok (snd x)) (d_dmms (v_dev v)).
 
 Definition seq_ok (s : seq) : Prop := Forall (chan_ok e) (q_sched s).
 
@@ -229,6 +229,17 @@ Lemma validate_and_adjust_fits c u pr p :
   cfg_ok (ch_cfg c) -> validate_and_adjust v c u pr = Ok p -> pulse_fits (ch_cfg c) p.
 Proof.
   intros Hg H. unfold validate_and_adjust in H.
+  assert (Hamp : match c_maxamp (ch_cfg c) with Some m => f_gt (u_amax u) m = false | None => True end).
+  { assert (Hv : forall g, validate_pulse g u = Ok tt ->
+                 match c_maxamp g with Some m => f_gt (u_amax u) m = false | None => True end).
+    { intros g Hv. unfold validate_pulse in Hv. destruct (c_maxamp g) as [m|]; [|exact I].
+      destruct (f_gt (u_amax u) m); [discriminate|reflexivity]. }
+    destruct (c_dmm (ch_cfg c)).
+    - destruct (ch_map c) as [mp|]; [|discriminate].
+      destruct (assoc mp (v_maps v)) as [w|]; [|discriminate].
+      unfold validate_pulse_dmm in H.
+      destruct (validate_pulse (ch_cfg c) u) as [[]|] eqn:Ev; [|discriminate]. apply Hv; auto.
+    - destruct (validate_pulse (ch_cfg c) u) as [[]|] eqn:Ev; [|discriminate]. apply Hv; auto. }
   match type of H with rbind ?X _ = _ => destruct X; [|discriminate] end.
   cbn [rbind] in H.
   destruct (validate_duration (ch_cfg c) (u_dur u)) as [d'|] eqn:E; [|discriminate].
@@ -236,7 +247,8 @@ Proof.
   destruct (negb (d' =? u_dur u) && negb (u_ext u)); [discriminate|].
   inv H. unfold pulse_fits; cbn.
   apply validate_duration_spec in E; auto.
-  destruct E as (E1 & E2 & E3 & E4 & _). split; [lia|auto].
+  destruct E as (E1 & E2 & E3 & E4 & _). split; [lia|]. split; [auto|].
+  unfold pamp_ok; cbn. exact Hamp.
 Qed.
 
 Lemma declared_inv n s s' r :
@@ -354,16 +366,16 @@ Proof.
 Qed.
 
 Lemma new_chan_first_slot name id cfg m qs s :
-  senv_ok -> cfg_ok cfg -> seq_ok s -> find_chan name (q_sched s) = None ->
+  senv_ok -> cfg_ok cfg /\ cfg_amp_ok cfg -> seq_ok s -> find_chan name (q_sched s) = None ->
   let s1 := set_sched s (q_sched s ++ [new_chan name id cfg m]) in
   seq_ok s1 /\ sxp (q_sched s) (q_sched s1) /\
   forall s2 r, onsched (append_slot name {| s_kind := KTarget; s_ti := -1; s_tf := 0; s_tg := qs |}) s1 = (s2, r) ->
                sxp (q_sched s1) (q_sched s2) /\ seq_ok s2.
 Proof.
-  intros (He & _) Hg Hok Hn s1.
+  intros (He & _) [Hg Hga] Hok Hn s1.
   assert (O1 : seq_ok s1).
   { unfold seq_ok, s1; cbn. apply Forall_app. split; auto. constructor; [|constructor].
-    unfold chan_ok, new_chan; cbn. auto. }
+    unfold SchedInv.chan_ok, new_chan; cbn. split; [auto|]. split; [auto|]. split; [constructor|]. split; [auto|constructor]. }
   split; auto. split; [unfold s1; cbn; apply sxp_app|].
   intros s2 r H. unfold onsched in H.
   match type of H with (let (_, _) := ?X in _) = _ => destruct X as [x r0] eqn:E end.
@@ -373,7 +385,7 @@ Proof.
       by (rewrite E; reflexivity).
     eapply append_slot_sx.
     - unfold s1; cbn. apply find_chan_app_new; auto.
-    - unfold fits, new_chan, first_ok; cbn. auto. }
+    - unfold fits, new_chan, first_ok, amp_ok; cbn. auto. }
   split; [apply sx_sxp; auto|]. unfold seq_ok; cbn. eapply sx_ok; eauto.
 Qed.
 
@@ -415,7 +427,7 @@ Proof.
   apply ret_inv in H2. destruct H2 as [-> _].
   destruct (assoc chid (d_chans (v_dev v))) as [cfg|] eqn:Ha.
   2:{ apply fail_inv in H. destruct H as [-> _]. split; [apply sxp_refl|auto]. }
-  assert (Hg : cfg_ok cfg).
+  assert (Hg : cfg_ok cfg /\ cfg_amp_ok cfg).
   { destruct Hv as (_ & Hc & _). rewrite Forall_forall in Hc.
     apply assoc_in in Ha. apply (Hc _ Ha). }
   mbind H s3 u3 H3.
@@ -472,7 +484,7 @@ Lemma qsafe_config_detmap mapid dmm : senv_ok -> qsafe (config_detuning_map v ma
 Proof.
   intros Hv. unfold config_detuning_map.
   destruct (assoc dmm (d_dmms (v_dev v))) as [cfg|] eqn:Ha; [|apply qkeep_qsafe; qk].
-  assert (Hg : cfg_ok cfg).
+  assert (Hg : cfg_ok cfg /\ cfg_amp_ok cfg).
   { destruct Hv as (_ & _ & Hc). rewrite Forall_forall in Hc.
     apply assoc_in in Ha. apply (Hc _ Ha). }
   apply qsafe_bind; [apply qkeep_qsafe; qk|]. intros s0.
